@@ -15,7 +15,7 @@ def strip_ops(ops):
 class C03(Prop):
     id = "C03"
     lean_module = "ProductMD.Properties.C03"
-    quick_budget = 2100
+    quick_budget = 1800
     thorough_budget = 24000
     rule = ("manifest = compose section + history of add calls (mostly valid, some refused) built on the real class; real dumps() bytes "
             "= model bytes; loads() into a fresh object: mapping, compose section and header version = model's re-read manifest; "
@@ -44,14 +44,21 @@ class C03(Prop):
             t1 = obj.dumps()
         except Exception as e:  # noqa
             return {"state": before["payload"], "steps": steps, "out": {"err": type(e).__name__}}
+        after_dumps = f.snap(obj)                       # dumps() is a read: only header.version may have moved
         try:
             obj2 = f.new()
             obj2.loads(t1)
             after = f.snap(obj2)
             t2 = obj2.dumps()
+            after2 = f.snap(obj2)
         except Exception as e:  # noqa
             return {"state": before["payload"], "steps": steps, "before": before, "text1": t1, "out": {"err": type(e).__name__}}
-        return {"state": before["payload"], "steps": steps, "before": before, "out": {"ok": {"text1": t1, "reloaded": after, "text2": t2}}}
+        ro = None
+        for label, x, y in (("built", before, after_dumps), ("re-read", after, after2)):
+            if x["payload"] != y["payload"] or x["compose"] != y["compose"]:
+                ro = {"which": label, "before": x, "after": y}
+        return {"state": before["payload"], "steps": steps, "before": before, "dumps_changed": ro,
+                "out": {"ok": {"text1": t1, "reloaded": after, "text2": t2}}}
 
     def model_requests(self, case):
         a = case["args"]
@@ -81,6 +88,9 @@ class C03(Prop):
             return {"kind": "cycle-raised", "observed": out["err"] + (" on loads/second dumps" if "text1" in real_out else " on dumps"),
                     "required": "a manifest built through add calls is written and read back"}
         o = out["ok"]
+        if real_out.get("dumps_changed"):
+            return {"kind": "dumps-changed-state", "observed": real_out["dumps_changed"],
+                    "required": "dumps() leaves mapping and compose section unchanged"}
         before, after = real_out["before"], o["reloaded"]
         if after["payload"] != before["payload"]:
             return {"kind": "mapping-changed", "observed": {"built": before["payload"], "reloaded": after["payload"]},
